@@ -11,13 +11,15 @@ PROP = {
     "technique": ("runtime monitoring: real server + client.NewReconnectableClient on simnet (virtual time), socket-census "
                   "PacketConn with kill switches behind a single-use ConnFactory, configFunc/connectedFunc recorders, "
                   "reference state model of the statement, race detector on the concurrent part"),
-    "parallel": 2,
+    "parallel": 5,
     "race_oracle": True,
     "race_files": ["core/client/reconnect.go"],
     "jobs": [
-        # the bubble parts run as parallel tests of one process (4 enumeration shards + random + stream limit)
-        job("bubble", *PKG, FILES, "^TestVerifC16(Enum[0-3]|Random|StreamLimit)$",
-            ["c16-enum-0", "c16-enum-1", "c16-enum-2", "c16-enum-3", "c16-random", "c16-streamlimit"], race=False,
+        # one bubble at a time per process (see the note in c16_scripts_test.go): shards are separate processes
+        job("enum-0", *PKG, FILES, "^TestVerifC16Enum0$", ["c16-enum-0"], race=False, timeout_quick=900, timeout_thorough=5400),
+        job("enum-1", *PKG, FILES, "^TestVerifC16Enum1$", ["c16-enum-1"], race=False, timeout_quick=900, timeout_thorough=5400),
+        job("enum-2", *PKG, FILES, "^TestVerifC16Enum2$", ["c16-enum-2"], race=False, timeout_quick=900, timeout_thorough=5400),
+        job("scripts", *PKG, FILES, "^TestVerifC16(Random|StreamLimit)$", ["c16-random", "c16-streamlimit"], race=False,
             timeout_quick=900, timeout_thorough=5400),
         job("concurrent", *PKG, FILES, "^TestVerifC16Concurrent$", ["c16-concurrent"], race=True,
             timeout_quick=900, timeout_thorough=5400),
@@ -30,14 +32,14 @@ PROP = {
              "at ~30 s virtual, with or without waiting for it), injected socket read/write error, server restart, server "
              "down for the next 1..3 attempts; failing reconnects: configFunc error, factory error, rejected credential, "
              "server down. "
-             "c16-enum-0..3 (FAULT ENUMERATION): base call scripts over {TCP call, UDP call, TCP call whose stream is held "
+             "c16-enum-0..2 (FAULT ENUMERATION, three shards of one enumeration): base call scripts over {TCP call, UDP call, TCP call whose stream is held "
              "open} of length 1..6 (13 fixed scripts + 3 PRNG, thorough 40 PRNG); for EVERY base script, EVERY kill index "
              "p in 0..L (before call p; p=L: after the last call, before Close), EVERY one of 13 fault kinds (blackhole, "
              "blackhole+wait, socket error, server restart, server down x1/x2, socket error followed by 1/2 config errors, "
              "1 factory error, 1/2 rejected credentials, blackhole + config error, server down + config error) and both "
              "start modes (lazy, eager) one case is run in its own synctest bubble, followed by Close and three calls "
              "after Close; space = sum over base scripts of (L+1)*13*2 (counters enum_space_cases, "
-             "enum_kill_positions_x_start_modes, enum_fault_kinds, enum_base_scripts per shard). "
+             "summed over the shards; enum_kill_positions_x_start_modes_all_shards, enum_fault_kinds, enum_base_scripts_all_shards). "
              "c16-random: PRNG scripts of 6..20 steps (calls, holds, release, virtual sleeps up to 40 s, kills of all "
              "kinds with 0..3 failing reconnects, a burst of 2..8 concurrent one-shot calls on a freshly blackholed "
              "connection, Close at a random step, failing eager constructor), a quarter of them with server "
